@@ -195,11 +195,10 @@ func (n *node) GetModuleByPrefix(
 	}
 	mname, ok := getPfxName(root, pfx)
 	if !ok {
-		if !skipUnknown {
-			return nil, fmt.Errorf("unknown import %s", pfx)
-		} else {
-			return nil, nil
-		}
+		// A prefix that no import binds is an error in every mode:
+		// skipUnknown is about modules that are not loaded, and there is
+		// no module to speak of here
+		return nil, fmt.Errorf("unknown import %s", pfx)
 	}
 
 	r, ok := modules[mname]
